@@ -36,7 +36,12 @@ RULE = ("Part A: the full itertools.product of certificate shape (absent; 0/1/2 
         "SLUGS+disabled, each enabled SLUGS block over 9 scripted behaviours) x request "
         "(Query/Create/Get/undecodable), every cell executed once (exhaustive).  Part B: "
         "Hypothesis draws of longer plugin lists (<=4 blocks), unicode CNs and group names, 0-3 "
-        "CNs, URL spellings, request versions/credentials, several undecodable shapes.  A case is "
+        "CNs, URL spellings, request versions/credentials, several undecodable shapes; common "
+        "names in one multi-valued RDN / next to an OU / before the organisation, issuer with a "
+        "common name of its own.  Part C: several requests on ONE session while the scripted "
+        "SLUGS services change their answers between requests (every sequence of 2 and 3 "
+        "behaviours of one block exhaustively, then Hypothesis sessions of 2-6 requests over 1-3 "
+        "blocks); every request is judged on its own.  A case is "
         "non-trivial unless it is 'certificate that passes every check, no plugin block at all'; "
         "distinct = distinct spec.")
 ASSUMPTIONS = [
@@ -162,7 +167,22 @@ class FakeRequests(object):
         self.roots = []
         self.log = []
 
+    def script_steps(self, specs, step_fn):
+        """One table per request of a session; step_fn() tells which request is being served."""
+        self.tables = []
+        for s in specs:
+            self.script(s)
+            self.tables.append((self.table, self.roots))
+        self.log = []
+        self.step_fn = step_fn
+
+    def _current(self):
+        if getattr(self, "step_fn", None) is not None:
+            i = min(self.step_fn(), len(self.tables) - 1)
+            self.table, self.roots = self.tables[i]
+
     def script(self, spec):
+        self.step_fn = None
         self.table = {}
         self.roots = []
         self.log = []
@@ -197,6 +217,7 @@ class FakeRequests(object):
                     raise core.HarnessError("unknown SLUGS behaviour %r" % (beh,))
 
     def get(self, url, **kw):
+        self._current()
         self.log.append(url)
         ent = self.table.get(url)
         if ent is None:
@@ -232,6 +253,11 @@ def not_a_request(body_hex):
     kids = top[0].get("children") or []
     return not kids or kids[0]["tag"] != ttlvref.T_REQUEST_HEADER or "children" not in kids[0] \
         or not kids[0]["children"]
+
+
+def _der(cert):
+    return harness.make_cert(tuple(cert["cns"]), cert["eku"], cert.get("layout", "separate"),
+                             cert.get("issuer_cn"))
 
 
 class Rig(object):
@@ -275,7 +301,7 @@ class Rig(object):
         buckets = []
         try:
             cert = spec["cert"]
-            der = None if cert is None else harness.make_cert(tuple(cert["cns"]), cert["eku"])
+            der = None if cert is None else _der(cert)
             data = self.request_bytes(spec["req"])
             settings = []
             for b in spec["plugins"]:
@@ -395,6 +421,153 @@ class Rig(object):
                                            b["beh"] + (str(len(b["groups"]))
                                                        if b["beh"] == "ok" else "")))
         return buckets, classes, not is_trivial(spec)
+
+
+def step_specs(spec):
+    """The single-request reading of every request of a multi-request session spec."""
+    out = []
+    for st in spec["steps"]:
+        blocks = []
+        for b, bb in zip(spec["plugins"], st["beh"]):
+            b = dict(b)
+            if bb is not None and "url" in b:
+                b["beh"] = bb[0]
+                b.pop("groups", None)
+                if bb[0] in ("ok", "users_down"):
+                    b["groups"] = list(bb[1])
+            blocks.append(b)
+        out.append({"cert": spec["cert"], "tls": spec["tls"], "plugins": blocks,
+                    "req": st["req"]})
+    return out
+
+
+def run_session(rig, spec):
+    """Several requests on ONE session; the SLUGS services may answer differently for each.
+    Every request is judged on its own by model(): the identity must be established for THAT
+    request from what the plugins say at THAT time."""
+    buckets = []
+    singles = step_specs(spec)
+    try:
+        der = None if spec["cert"] is None else _der(spec["cert"])
+        data = b"".join(rig.request_bytes(s["req"]) for s in singles)
+        settings = []
+        for b in spec["plugins"]:
+            cfg = {}
+            if b.get("enabled") is not None:
+                cfg["enabled"] = b["enabled"]
+            if b.get("url") is not None:
+                cfg["url"] = b["url"]
+            settings.append((b["name"], cfg))
+        accepts = [model(s) for s in singles]
+    except core.HarnessError:
+        raise
+    except Exception as e:
+        raise core.HarnessError("cannot build case %s: %r" % (core.canon(spec), e))
+    engine = rig.server.engine
+    box = {}
+    calls = []
+    dumps = []
+    real = engine.process_request
+
+    def spy(request, credential=None, *a, **kw):
+        calls.append((len(box["conn"].sent), credential))
+        return real(request, credential, *a, **kw)
+
+    def hook(conn):
+        box["conn"] = conn
+        plain = conn.sendall
+
+        def sendall(b):
+            plain(b)
+            dumps.append(rig.observe())
+        conn.sendall = sendall
+
+    rig.fake.script_steps(singles, lambda: len(box["conn"].sent))
+    before = rig._dump if rig._dump is not None else rig.observe()
+    engine.process_request = spy
+    try:
+        conn, errors = rig.server.session(data, cert=der, tls_client_auth=spec["tls"],
+                                          auth_settings=settings, max_loops=len(singles) + 3,
+                                          conn_hook=hook)
+    finally:
+        try:
+            del engine.process_request
+        except AttributeError:
+            engine.process_request = real
+        rig.fake.step_fn = None
+    rig._dump = rig.observe()
+    for e in errors:
+        buckets.append((core.exc_bucket(PID, "loop-exception", e),
+                        "exception left the message loop; identity calls=%r" % (calls,)))
+    if len(conn.sent) != len(singles):
+        buckets.append(("C17|response|count-not-one",
+                        "%d responses for %d requests on one session"
+                        % (len(conn.sent), len(singles))))
+        return buckets, ["session:steps=%d" % len(singles)], True
+    outcomes = []
+    prev = before
+    for i, (single, accept) in enumerate(zip(singles, accepts)):
+        mine = [c for (k, c) in calls if k == i]
+        try:
+            items = ttlvref.response_items(conn.sent[i])
+        except Exception as e:
+            buckets.append(("C17|response|not-parseable", "%s: %s" % (type(e).__name__, e)))
+            items = None
+        after = dumps[i]
+        changed = prev != after
+        must_fail = accept == {FAIL}
+        where = "request %d of %d on one session" % (i + 1, len(singles))
+        auth_refused = (items is not None and len(items) == 1
+                        and items[0]["status"] == STATUS_OPERATION_FAILED
+                        and items[0]["reason"] == REASON_AUTHENTICATION_NOT_SUCCESSFUL)
+        if single["req"]["kind"] == "undecodable":
+            outcomes.append("undecodable")
+            if mine:
+                buckets.append(("C17|undecodable|engine-called",
+                                "%s: process_request called for bytes that are not a request; "
+                                "identity %r" % (where, mine[0])))
+            if changed:
+                buckets.append(("C17|undecodable|store-changed",
+                                where + ": " + _diff(prev, after)))
+            if items is not None and not (
+                    len(items) == 1 and items[0]["status"] == STATUS_OPERATION_FAILED
+                    and items[0]["reason"] in (REASON_AUTHENTICATION_NOT_SUCCESSFUL,
+                                               REASON_INVALID_MESSAGE)):
+                buckets.append(("C17|undecodable|answer-not-a-refusal",
+                                "%s: items %r" % (where, items)))
+        elif not mine:
+            outcomes.append("refused")
+            if FAIL not in accept:
+                buckets.append(("C17|established-identity-refused",
+                                "%s: model %s, engine never called; answer %r"
+                                % (where, _show(accept), _brief(items))))
+            else:
+                if items is not None and not auth_refused:
+                    buckets.append(("C17|failure|answer-not-authentication-not-successful",
+                                    "%s: items %r" % (where, _brief(items))))
+                if changed:
+                    buckets.append(("C17|failure|store-changed",
+                                    where + ": " + _diff(prev, after)))
+        else:
+            outcomes.append("evaluated")
+            got = _norm_identity(mine[0])
+            if must_fail:
+                buckets.append(("C17|evaluated-without-identity|" + _why_fail(single),
+                                "%s: process_request called with %r although no plugin vouches "
+                                "for the user now; earlier requests: %r"
+                                % (where, mine[0], outcomes[:-1])))
+            elif got not in accept:
+                buckets.append(("C17|identity-differs|" + _how_differs(got, accept),
+                                "%s: process_request called with %r; acceptable now %s"
+                                % (where, mine[0], _show(accept))))
+            if len(mine) != 1:
+                buckets.append(("C17|engine-called-more-than-once", "%s: %r" % (where, mine)))
+        prev = after
+    exp = ["fail" if a == {FAIL} else ("either" if FAIL in a else "ok") for a in accepts]
+    classes = ["session:steps=%d" % len(singles),
+               "session:expect=" + ">".join(exp),
+               "session:outcome=" + ">".join(outcomes)]
+    return buckets, classes, True
 
 
 def _norm_identity(ident):
@@ -528,6 +701,18 @@ def cert_shapes():
     for cns, eku in itertools.product([[], ["alice"], ["alice", "bob"]],
                                       [None, "server", "client", "both"]):
         out.append({"cns": cns, "eku": eku})
+    # where the common names sit in the subject: several in ONE multi-valued RDN (CN=a+CN=b),
+    # next to another attribute type in one RDN, before the organisation, and an issuer with a
+    # common name of its own (must not be taken for the client's)
+    for eku in ("client", None):
+        out.append({"cns": ["alice", "bob"], "eku": eku, "layout": "multi"})
+        out.append({"cns": ["bob", "alice"], "eku": eku, "layout": "multi"})
+        out.append({"cns": ["alice", "bob"], "eku": eku, "layout": "cn-first"})
+        out.append({"cns": ["alice"], "eku": eku, "layout": "multi-ou"})
+        out.append({"cns": ["alice", "bob"], "eku": eku, "layout": "multi-ou"})
+        out.append({"cns": ["alice"], "eku": eku, "issuer_cn": "bob"})
+        out.append({"cns": [], "eku": eku, "issuer_cn": "alice"})
+        out.append({"cns": [], "eku": eku, "layout": "multi-ou", "issuer_cn": "alice"})
     return out
 
 
@@ -556,6 +741,113 @@ def worker_product(shard, nshards):
     return col
 
 
+# ------------------------------------------------------------------------------ part C: sessions
+SBEH = [("ok", ["s-g1"]), ("ok", ["s-g2"]), ("ok", []), ("users404", []), ("groups404", []),
+        ("users_down", ["s-unvalidated"]), ("groups_down", [])]
+SREQ = [{"kind": "query"}, {"kind": "create"}, {"kind": "get"}]
+
+
+def session_cells():
+    """One enabled SLUGS block; every sequence of 2 and of 3 scripted behaviours (a user gains,
+    loses or changes group membership, the service goes away and comes back) while the session
+    stays open; requests rotate through Query / Create / Get."""
+    cert = {"cns": ["alice"], "eku": "client"}
+    for n in (2, 3):
+        for k, behs in enumerate(itertools.product(SBEH, repeat=n)):
+            steps = [{"req": SREQ[(k + i) % 3], "beh": [list(b)]} for i, b in enumerate(behs)]
+            yield {"cert": cert, "tls": True, "plugins": [slugs_block(0, "ok", 0)],
+                   "steps": steps}
+    # two blocks: the second vouches throughout, the first changes its mind
+    for behs in itertools.product(SBEH, repeat=2):
+        steps = [{"req": SREQ[i % 3], "beh": [list(b), ["ok", ["t-g"]]]}
+                 for i, b in enumerate(behs)]
+        yield {"cert": cert, "tls": True,
+               "plugins": [slugs_block(0, "ok", 0), slugs_block(1, "ok", 0)], "steps": steps}
+    # no plugin at all / a certificate that is refused: every request alike
+    yield {"cert": cert, "tls": True, "plugins": [],
+           "steps": [{"req": r, "beh": []} for r in SREQ]}
+    yield {"cert": {"cns": ["alice"], "eku": "server"}, "tls": True, "plugins": [],
+           "steps": [{"req": r, "beh": []} for r in SREQ]}
+
+
+def worker_sessions(shard, nshards):
+    col = core.Collector(PID)
+    rig = Rig()
+    try:
+        for i, spec in enumerate(session_cells()):
+            if i % nshards != shard:
+                continue
+            buckets, classes, nt = run_session(rig, spec)
+            col.record(spec, nontrivial=nt, classes=classes, buckets=buckets)
+            col.bump("session_cells")
+    finally:
+        rig.close()
+    return col
+
+
+def session_strategy():
+    from hypothesis import strategies as st
+    group = st.sampled_from(["g1", "g2", "admin", ""])
+    beh = st.one_of(
+        st.tuples(st.just("ok"), st.lists(group, max_size=3)),
+        st.tuples(st.sampled_from(["users404", "groups404", "groups_down", "nogroups"]),
+                  st.just([])),
+        st.tuples(st.just("users_down"), st.just(["unvalidated"]))).map(list)
+    req = st.one_of(
+        st.fixed_dictionaries({"kind": st.sampled_from(["query", "create", "get"]),
+                               "v": st.sampled_from([list(v) for v in harness.VERSIONS])}),
+        st.fixed_dictionaries({"kind": st.just("undecodable"),
+                               "body": st.integers(0, 200).map(_truncated_query)}))
+
+    @st.composite
+    def case(draw):
+        nb = draw(st.integers(1, 3))
+        blocks = []
+        for i in range(nb):
+            kind = draw(st.sampled_from(["S", "S", "S", "d", "u"]))
+            if kind == "S":
+                blocks.append(slugs_block(i, "ok", 0, url_style=draw(st.integers(0, 1))))
+            elif kind == "d":
+                blocks.append(disabled_block(i))
+            else:
+                blocks.append(unsupported_block(i, draw(st.sampled_from(["True", "False"]))))
+        n = draw(st.integers(2, 6))
+        steps = []
+        for _ in range(n):
+            steps.append({"req": draw(req),
+                          "beh": [draw(beh) if b["name"].startswith("auth:slugs") else None
+                                  for b in blocks]})
+        names = draw(st.sampled_from([["alice"], ["alice"], ["alice"], ["bob"],
+                                      ["alice", "bob"], []]))
+        cert = {"cns": names, "eku": draw(st.sampled_from(["client", "client", "both", None])),
+                "layout": draw(st.sampled_from(["separate", "separate", "multi", "multi-ou",
+                                                "cn-first"]))}
+        return {"cert": cert, "tls": draw(st.booleans()), "plugins": blocks, "steps": steps}
+
+    return case()
+
+
+def worker_random_sessions(seed, n):
+    col = core.Collector(PID)
+    state = {"rig": Rig(), "used": 0}
+
+    def one(spec):
+        if state["used"] >= RECYCLE:
+            state["rig"].close()
+            state["rig"] = Rig()
+            state["used"] = 0
+        state["used"] += len(spec["steps"])
+        buckets, classes, nt = run_session(state["rig"], spec)
+        col.record(spec, nontrivial=nt, classes=classes, buckets=buckets)
+        col.bump("random_sessions")
+
+    try:
+        core.draw_examples(session_strategy(), n, seed, one)
+    finally:
+        state["rig"].close()
+    return col
+
+
 # ------------------------------------------------------------------------------ part B: random
 def case_strategy():
     from hypothesis import strategies as st
@@ -577,7 +869,13 @@ def case_strategy():
         else:
             names = draw(st.lists(cn, min_size=0, max_size=3, unique=True))
         eku = draw(st.sampled_from([None, "server", "client", "client", "both", "both"]))
-        return {"cns": names, "eku": eku}
+        c = {"cns": names, "eku": eku}
+        lay = draw(st.sampled_from(["separate"] * 4 + ["multi", "multi", "multi-ou", "cn-first"]))
+        if lay != "separate":
+            c["layout"] = lay
+        if draw(st.integers(0, 5)) == 0:
+            c["issuer_cn"] = draw(st.sampled_from(["alice", "bob", "Verif CA"]))
+        return c
 
     cert = certs()
     group = st.one_of(st.sampled_from(["g1", "g2", "admin", ""]),
@@ -678,7 +976,17 @@ def run(ctx):
     dicts += core.run_sharded("vlib.props.c17", "worker_random",
                               [(core.derive_seed(ctx.seed, "rnd", s), per)
                                for s in range(nshards)])
+    dicts += core.run_sharded("vlib.props.c17", "worker_sessions",
+                              [(s, nshards) for s in range(nshards)])
+    dicts += core.run_sharded("vlib.props.c17", "worker_random_sessions",
+                              [(core.derive_seed(ctx.seed, "ses", s), ctx.n(60, 1500))
+                               for s in range(nshards)])
     col = core.merged(PID, dicts)
+    nses = sum(1 for _ in session_cells())
+    if col.extra.get("session_cells") != nses:
+        raise core.HarnessError("session product not fully enumerated: %r of %d"
+                                % (col.extra.get("session_cells"), nses))
+    col.extra["session_product_size"] = nses
     total = sum(1 for _ in product_cells())
     if col.extra.get("product_cells") != total:
         raise core.HarnessError("product not fully enumerated: %r of %d"
@@ -692,7 +1000,10 @@ def run(ctx):
 def replay(spec):
     rig = Rig()
     try:
-        buckets, _, _ = rig.run(spec)
+        if "steps" in spec:
+            buckets, _, _ = run_session(rig, spec)
+        else:
+            buckets, _, _ = rig.run(spec)
     finally:
         rig.close()
     return buckets
